@@ -204,6 +204,7 @@ def run_one(spec: Dict[str, Any], mode_name: str, variant: str, with_art: bool =
     elif "exc" in box:
         e = box["exc"]
         status, exc, exc_type = "raised", str(e)[-300:], type(e).__name__
+        box["head"] = str(e)[:160]
     else:
         n_items = box.get("n", 0)
     wall = time.time() - t0
@@ -237,7 +238,7 @@ def run_one(spec: Dict[str, Any], mode_name: str, variant: str, with_art: bool =
             pass
     dispose(classes, tag)
     strip = (lambda s: s.replace(tag + "_", "") if isinstance(s, str) else s)
-    return {"status": status, "exc": strip(exc), "exc_type": exc_type, "items": n_items, "wall": round(wall, 2), **lo,
+    return {"status": status, "exc": strip(exc), "exc_head": strip(box.get("head")), "exc_type": exc_type, "items": n_items, "wall": round(wall, 2), **lo,
             "artifacts": None if arts is None else {strip(k): strip(json.dumps(v)) for k, v in arts.items()},
             "session_artifacts": sess_arts if not isinstance(sess_arts, dict) else {strip(k): strip(json.dumps(v)) for k, v in sess_arts.items()}}
 
@@ -288,7 +289,7 @@ def judge(spec: Dict[str, Any], mode_name: str, variant: str, r: Dict[str, Any],
                 bad.append(("message", f"the exception does not carry the step's message {tagmsg!r}: {r['exc_type']}: {r['exc']}"))
             if twin is not None and twin["status"] == "raised" and twin["exc_type"] != r["exc_type"]:
                 bad.append(("exc-type", f"the same failing request raises {twin['exc_type']} without artifacts but {r['exc_type']} with "
-                                        f"artifacts: {r['exc']}"))
+                                        f"artifacts: {r.get('exc_head')}"))
         if r["artifacts"] is None:
             bad.append(("artifacts", f"the orchestrator's get_artifacts does not work after the failed call: {r['session_artifacts']}"))
         else:
@@ -333,17 +334,17 @@ def report(rep: vlib.Reporter, tier: str, seed: int) -> bool:
     # ---- end to end
     plan: List[Tuple[Dict[str, Any], str, str]] = []
     reps = 4 if big else 1
+    mp_shapes = [("dep", "run"), ("indep", "run"), ("chain", "stream"), ("nosave", "run"), ("ok", "run")]
+    if big:
+        mp_shapes = [(s, v) for s in SHAPES for v in ("run", "stream")] * 2
+    for shape, variant in mp_shapes:
+        plan.append((gen_spec(rng, shape), "MULTIPROCESSING", variant))
     for _ in range(reps):
         for shape in SHAPES:
             spec = gen_spec(rng, shape)
             for mode_name in ("SYNC", "THREADING"):
                 for variant in ("run", "stream"):
                     plan.append((spec, mode_name, variant))
-    mp_shapes = [("dep", "run"), ("indep", "run"), ("chain", "stream"), ("nosave", "run"), ("ok", "run")]
-    if big:
-        mp_shapes = [(s, v) for s in SHAPES for v in ("run", "stream")] * 2
-    for shape, variant in mp_shapes:
-        plan.append((gen_spec(rng, shape), "MULTIPROCESSING", variant))
     for spec, mode_name, variant in plan:
         r = run_one(spec, mode_name, variant)
         twin = None
